@@ -224,6 +224,19 @@ def replay(h, f_real, in_vals, aux, claim_index, label, model, ctx):
         return dict(confirmed=False, reason="chart singular at model point")
     ins_float = [[float(x) for x in row] for row in ins_num]
     outs_real = _casadi_eval(f_real, ins_float[:f_real.n_in()])
+    if label.startswith("defined:"):
+        # definedness side condition: confirmed iff the real function meets an undefined operation on the
+        # path selected at this point (exact mp evaluation of the instruction list) or returns non-finite values
+        bad = any((x != x or x in (float("inf"), float("-inf"))) for M in outs_real for row in M for x in row)
+        why = "non-finite output" if bad else None
+        if not bad:
+            try:
+                evaluate(IR(f_real), [[mp.mpf(x) for x in row] for row in ins_float[:f_real.n_in()]], MpDomain())
+            except Undefined as e:
+                bad, why = True, f"undefined operation on the selected path: {e}"
+        return dict(confirmed=bad, reason=why or "real function is finite at the model point",
+                    inputs=ins_float[:f_real.n_in()],
+                    env={k: float(v) for k, v in env.items() if "!" not in k})
     outs_mp = [[[mp.mpf(x) for x in row] for row in M] for M in outs_real]
     try:
         aux_num = _num_aux(aux, env, cache)
@@ -249,6 +262,7 @@ def run_harness(h: Harness, seed=0, tier="quick", shard=None):
                  resolutions={}, functions=[], unknown_feas=0)
     records = []
     nclaim = 0
+    reachable = 0
     try:
         f = h.build()
     except NotImplementedError as e:
@@ -297,9 +311,11 @@ def run_harness(h: Harness, seed=0, tier="quick", shard=None):
         # reachability twin: the cell must be satisfiable
         r = ctx.check(timeout_ms=10000)
         if r == "unsat":
-            records.append(dict(label="reachability", status="vacuous", harness=h.name,
-                                cell=str(cell.decisions)))
+            # a cell the feasibility checks could not prune in time but which is empty: drop it
+            stats["cells"] -= 1
+            stats["cells_late_pruned"] = stats.get("cells_late_pruned", 0) + 1
             continue
+        reachable += 1
         for c in cl:
             nclaim += 1
             if shard is not None and (nclaim % shard[1]) != shard[0]:
@@ -313,7 +329,7 @@ def run_harness(h: Harness, seed=0, tier="quick", shard=None):
             rec = dict(label=label, status=res["status"], t=round(res["t"], 4),
                        cell="".join("T" if d else "F" for d in cell.decisions), harness=h.name)
             if res["status"] == "refuted":
-                if kindc == "raw":
+                if kindc == "raw" and not label.startswith("defined:"):
                     rec["replay"] = dict(confirmed=True, note="definedness side condition", model={k: str(v) for k, v in res["model"].items() if "!" not in k})
                 else:
                     rp = replay(h, f_real, in_vals, aux, None, label, res["model"], ctx)
@@ -327,5 +343,8 @@ def run_harness(h: Harness, seed=0, tier="quick", shard=None):
         stats["queries"] += ctx.queries
         stats["solver_time"] += ctx.solver_time
         stats["unknown_feas"] += ctx.unknowns
+    if reachable == 0 and stats["cells_skipped"] == 0:
+        # reachability twin failed for every cell: the harness proves nothing
+        records.append(dict(label="reachability", status="vacuous", harness=h.name, cell="all"))
     stats["wall"] = time.time() - t_start
     return dict(records=records, stats=stats)
